@@ -8,7 +8,7 @@
    Part 5  erasure of reference resolution and reference creation *)
 From Coq Require Import List NArith Bool Lia Arith ZifyBool ZifyN.
 From UP Require Import Base.Chars Base.Atoms Model.Uri Model.Ip4 Model.Parse Model.Common Model.Compare
-  Model.Resolve Model.Shorten Model.Normalize Model.Mem Model.ParseM Model.OpsM.
+  Model.Resolve Model.Shorten Model.Normalize Model.Recompose Model.Mem Model.ParseM Model.OpsM.
 Import ListNotations.
 
 (* ================================================================ Part 0: vocabulary *)
@@ -3045,3 +3045,184 @@ Proof.
     exists rc, d', s'. split; [reflexivity|]. split; [rewrite He', Herr; reflexivity|]. split; [exact Hb'|].
     split; [intros A B; apply bwf_mwf; auto|]. apply (st_le_nofault _ _ L2). apply (st_le_nofault _ _ L Hnf).
 Qed.
+
+(* ================================================================ Part 6: the statements of Props/C12.v and Props/C19.v *)
+(* every live block was handed out earlier: holds initially and is kept by the ledger operations *)
+Definition ledger_wf (s : mstate) : Prop := Forall (fun p => fst p < ms_next s) (ms_live s).
+
+Lemma ledger_wf_init p : ledger_wf (ms_init p).
+Proof. constructor. Qed.
+Lemma ledger_wf_alloc c sz s : ledger_wf s -> ledger_wf (snd (alloc c sz s)).
+Proof.
+  unfold ledger_wf, alloc. intros H. destruct (plan_fails (ms_plan s) (S (ms_requests s))); cbn [snd ms_live ms_next]; [exact H|].
+  constructor; [cbn; lia|]. eapply Forall_impl; [|exact H]. cbn. intros; lia.
+Qed.
+Lemma remove_blk_sub b l : forall sz l', remove_blk b l = Some (sz, l') -> sublist l' l.
+Proof.
+  induction l as [|[i z] r IH]; intros sz l'; cbn [remove_blk]; [discriminate|].
+  destruct (Nat.eqb i b).
+  - intros H; injection H as <- <-. apply sl_skip, sublist_refl.
+  - destruct (remove_blk b r) as [[sz' r']|]; [|discriminate]. intros H; injection H as <- <-.
+    apply sl_cons. eapply IH. reflexivity.
+Qed.
+Lemma ledger_wf_free b s : ledger_wf s -> ledger_wf (free_blk b s).
+Proof.
+  unfold ledger_wf, free_blk. intros H. destruct (remove_blk b (ms_live s)) as [[sz l']|] eqn:E; cbn [ms_live ms_next]; [|exact H].
+  eapply sublist_Forall; [eapply remove_blk_sub; exact E|exact H].
+Qed.
+Lemma fresh_not_live s l : ledger_wf s -> Forall (fun b => ms_next s <= b) l ->
+  Forall (fun b => ~ In b (map fst (ms_live s))) l.
+Proof.
+  intros Hw Hl. eapply Forall_impl; [|exact Hl]. cbn. intros b Hb Hi.
+  apply in_map_iff in Hi. destruct Hi as ([i z] & <- & Hin). unfold ledger_wf in Hw. rewrite Forall_forall in Hw.
+  specialize (Hw _ Hin). cbn in *. lia.
+Qed.
+
+Lemma to_text_owner u : to_text (set_owner true u) = to_text u.
+Proof. reflexivity. Qed.
+
+Definition fresh_blocks (s s' : mstate) (m' : muri) : Prop :=
+  NoDup (text_blocks m')
+  /\ Forall (fun b => ms_next s <= b < ms_next s') (text_blocks m')
+  /\ (ledger_wf s -> Forall (fun b => ~ In b (map fst (ms_live s))) (text_blocks m')).
+
+Lemma fresh_blocks_intro s s' m' :
+  NoDup (text_blocks m') -> Forall (fun b => ms_next s <= b < ms_next s') (text_blocks m') -> fresh_blocks s s' m'.
+Proof.
+  intros H1 H2. split; [exact H1|]. split; [exact H2|]. intros Hw. apply fresh_not_live; [exact Hw|].
+  eapply Forall_impl; [|exact H2]. cbn. intros; lia.
+Qed.
+
+Lemma C12_make_owner_stmt csize m s : nofault s -> mwf m -> m_owner m = false ->
+  exists m' s', make_owner_m csize m s = (URI_SUCCESS, m', s')
+    /\ erase m' = make_owner (erase m) /\ to_text (erase m') = to_text (erase m)
+    /\ m_owner m' = true /\ all_owned m' = true /\ depends_on_input m' = false
+    /\ mwf m' /\ fresh_blocks s s' m' /\ nofault s'.
+Proof.
+  intros Hnf (Hh & _ & _ & Hb) Ho.
+  destruct (make_owner_m_borrowed csize m s Hnf Ho Hh (Hb Ho)) as (m' & s' & E & R & W & A & Wf & ND & F & N).
+  exists m', s'. split; [exact E|]. split; [exact R|]. split; [rewrite R; apply to_text_owner|]. split; [exact W|].
+  split; [exact A|]. split; [unfold depends_on_input; rewrite A; reflexivity|]. split; [exact Wf|].
+  split; [apply fresh_blocks_intro; assumption|exact N].
+Qed.
+
+Lemma C12_normalize_borrowed_stmt csize mask m s : nofault s -> mwf m -> m_owner m = false -> mask <> 0%N ->
+  exists m' s', normalize_m csize mask m s = (URI_SUCCESS, m', s')
+    /\ erase m' = normalize mask (erase m)
+    /\ m_owner m' = true /\ all_owned m' = true /\ depends_on_input m' = false
+    /\ mwf m' /\ fresh_blocks s s' m' /\ nofault s'.
+Proof.
+  intros Hnf (Hh & _ & _ & Hb) Ho Hmask.
+  destruct (normalize_m_borrowed csize mask m s Hnf Ho Hh (Hb Ho) Hmask) as (m' & s' & E & R & W & A & Wf & ND & F & N).
+  exists m', s'. split; [exact E|]. split; [exact R|]. split; [exact W|].
+  split; [exact A|]. split; [unfold depends_on_input; rewrite A; reflexivity|]. split; [exact Wf|].
+  split; [apply fresh_blocks_intro; assumption|exact N].
+Qed.
+
+Lemma C12_normalize_owned_stmt csize mask m s : nofault s -> mwf m -> m_owner m = true -> mask <> 0%N ->
+  exists m' s', normalize_m csize mask m s = (URI_SUCCESS, m', s')
+    /\ erase m' = normalize mask (erase m)
+    /\ m_owner m' = true /\ all_owned m' = true /\ depends_on_input m' = false
+    /\ mwf m' /\ incl (text_blocks m') (text_blocks m) /\ nofault s'.
+Proof.
+  intros Hnf Hw Ho Hmask.
+  destruct (normalize_m_owned csize mask m s Hnf Ho Hw Hmask) as (m' & s' & E & R & W & A & Wf & Sb & N).
+  exists m', s'. split; [exact E|]. split; [exact R|]. split; [exact W|].
+  split; [exact A|]. split; [unfold depends_on_input; rewrite A; reflexivity|]. split; [exact Wf|].
+  split; [intros b Hb; eapply sublist_In; eassumption|exact N].
+Qed.
+
+Lemma C12_normalize_zero_stmt csize m s : normalize_m csize 0 m s = (URI_SUCCESS, m, s) /\ normalize 0 (erase m) = erase m.
+Proof. split; reflexivity. Qed.
+
+Lemma C12_add_base_stmt compat rel base s : nofault s ->
+  exists rc d s', add_base_m compat rel base s = (rc, d, s')
+    /\ (rc, erase d) = add_base compat (erase rel) (erase base)
+    /\ m_owner d = false /\ text_blocks d = []
+    /\ (mwf rel -> mwf base -> mwf d) /\ nofault s'.
+Proof.
+  intros Hnf. destruct (add_base_m_erasure compat rel base s Hnf) as (rc & d & s' & E & R & [B1 B2] & W & N).
+  exists rc, d, s'. split; [exact E|]. split; [exact R|]. split; [exact B1|]. split; [exact B2|].
+  split; [intros (H1 & _) (H2 & _); apply W; assumption|exact N].
+Qed.
+
+Lemma C12_remove_base_stmt dr src base s : nofault s ->
+  exists rc d s', remove_base_m dr src base s = (rc, d, s')
+    /\ (rc, erase d) = remove_base dr (erase src) (erase base)
+    /\ m_owner d = false /\ text_blocks d = []
+    /\ (mwf src -> mwf base -> mwf d) /\ nofault s'.
+Proof.
+  intros Hnf. destruct (remove_base_m_erasure dr src base s Hnf) as (rc & d & s' & E & R & [B1 B2] & W & N).
+  exists rc, d, s'. split; [exact E|]. split; [exact R|]. split; [exact B1|]. split; [exact B2|].
+  split; [intros (H1 & _) (H2 & _); apply W; assumption|exact N].
+Qed.
+
+(* ---- C19 *)
+Lemma C19_make_owner_requests_stmt csize m s rc m' s' :
+  nofault s -> mwf m -> m_owner m = false -> make_owner_m csize m s = (rc, m', s') ->
+  new_events s s' = map (req_event csize) (owner_plan (erase m)).
+Proof.
+  intros Hnf (Hh & _ & _ & Hb) Ho E. apply extends_new_events.
+  apply (make_owner_m_trace csize m s rc m' s' Hnf Ho Hh (Hb Ho) E).
+Qed.
+
+Definition normalize_plan (mask : N) (owned : bool) (u : uri) : list areq :=
+  if owned then normalize_plan_o mask u else normalize_plan_b mask u.
+
+Lemma C19_normalize_requests_stmt csize mask m s rc m' s' :
+  nofault s -> mwf m -> mask <> 0%N -> normalize_m csize mask m s = (rc, m', s') ->
+  allocs (trace_of s') = allocs (trace_of s) ++ map (req_event csize) (normalize_plan mask (m_owner m) (erase m)).
+Proof.
+  intros Hnf Hw Hmask E. apply aextends_trace_of. unfold normalize_plan. destruct (m_owner m) eqn:Ho.
+  - apply (normalize_m_owned_trace csize mask m s rc m' s' Hnf Ho Hw Hmask E).
+  - destruct Hw as (Hh & _ & _ & Hb). apply (normalize_m_borrowed_trace csize mask m s rc m' s' Hnf Ho Hh (Hb Ho) Hmask E).
+Qed.
+
+Lemma C19_plans_kind_stmt mask owned u :
+  Forall text_or_node (owner_plan u) /\ Forall text_or_node (normalize_plan mask owned u).
+Proof.
+  split; [apply owner_plan_kind|]. unfold normalize_plan. destruct owned; [apply normalize_plan_o_kind|apply normalize_plan_b_kind].
+Qed.
+
+Lemma C19_normalize_two_sizes_stmt c1 c2 mask m s1 s2 :
+  c1 <> 0%N -> c2 <> 0%N -> nofault s1 -> nofault s2 -> mwf m -> mask <> 0%N ->
+  let r1 := normalize_m c1 mask m s1 in let r2 := normalize_m c2 mask m s2 in
+  fst (fst r1) = fst (fst r2)
+  /\ erase (snd (fst r1)) = erase (snd (fst r2))
+  /\ exists ev1 ev2, allocs (trace_of (snd r1)) = allocs (trace_of s1) ++ ev1
+                  /\ allocs (trace_of (snd r2)) = allocs (trace_of s2) ++ ev2
+                  /\ trace_chars c1 ev1 = trace_chars c2 ev2.
+Proof.
+  intros H1 H2 N1 N2 Hw Hmask. cbv zeta.
+  assert (exists m1 z1, normalize_m c1 mask m s1 = (URI_SUCCESS, m1, z1) /\ erase m1 = normalize mask (erase m)) as (m1 & z1 & E1 & R1).
+  { destruct (m_owner m) eqn:Ho.
+    - destruct (normalize_m_owned c1 mask m s1 N1 Ho Hw Hmask) as (a & b & E & R & _). exists a, b. split; assumption.
+    - destruct Hw as (Hh & _ & _ & Hb). destruct (normalize_m_borrowed c1 mask m s1 N1 Ho Hh (Hb Ho) Hmask) as (a & b & E & R & _).
+      exists a, b. split; assumption. }
+  assert (exists m2 z2, normalize_m c2 mask m s2 = (URI_SUCCESS, m2, z2) /\ erase m2 = normalize mask (erase m)) as (m2 & z2 & E2 & R2).
+  { destruct (m_owner m) eqn:Ho.
+    - destruct (normalize_m_owned c2 mask m s2 N2 Ho Hw Hmask) as (a & b & E & R & _). exists a, b. split; assumption.
+    - destruct Hw as (Hh & _ & _ & Hb). destruct (normalize_m_borrowed c2 mask m s2 N2 Ho Hh (Hb Ho) Hmask) as (a & b & E & R & _).
+      exists a, b. split; assumption. }
+  pose proof (C19_normalize_requests_stmt c1 mask m s1 _ _ _ N1 Hw Hmask E1) as T1.
+  pose proof (C19_normalize_requests_stmt c2 mask m s2 _ _ _ N2 Hw Hmask E2) as T2.
+  rewrite E1, E2. cbn [fst snd]. split; [reflexivity|]. split; [rewrite R1, R2; reflexivity|].
+  eexists; eexists. split; [exact T1|]. split; [exact T2|]. apply trace_chars_two; try assumption.
+  apply C19_plans_kind_stmt.
+Qed.
+
+Lemma C19_make_owner_two_sizes_stmt c1 c2 m s1 s2 :
+  c1 <> 0%N -> c2 <> 0%N -> nofault s1 -> nofault s2 -> mwf m -> m_owner m = false ->
+  let r1 := make_owner_m c1 m s1 in let r2 := make_owner_m c2 m s2 in
+  fst (fst r1) = fst (fst r2)
+  /\ erase (snd (fst r1)) = erase (snd (fst r2))
+  /\ trace_chars c1 (new_events s1 (snd r1)) = trace_chars c2 (new_events s2 (snd r2)).
+Proof.
+  intros H1 H2 N1 N2 (Hh & _ & _ & Hb) Ho. apply make_owner_two_sizes; auto.
+Qed.
+
+Lemma C12_ledger_wf_stmt p c sz b s :
+  ledger_wf (ms_init p)
+  /\ (ledger_wf s -> ledger_wf (snd (alloc c sz s)))
+  /\ (ledger_wf s -> ledger_wf (free_blk b s)).
+Proof. exact (conj (ledger_wf_init p) (conj (ledger_wf_alloc c sz s) (ledger_wf_free b s))). Qed.
